@@ -175,6 +175,14 @@ def checksum_shapes():
             lambda field=field, func=func: C.Prefixed(C.Byte, C.Struct("fields" / C.RawCopy(C.Struct("a" / C.Byte, "b" / C.Byte)),
                                                                        "checksum" / C.Checksum(field(), func, C.this.fields.data))),
             [dict(fields=dict(value=dict(a=a, b=b))) for a in (0, 7) for b in (0, 255)])
+        # boundary: the covered region may be empty (count 0) - the digest of nothing is still a digest that must match
+        shapes["counted-region/" + hn] = ("fixed", hn,
+            lambda field=field, func=func: C.Struct("n" / C.Byte, "fields" / C.RawCopy(C.Bytes(C.this.n)),
+                                                   "checksum" / C.Checksum(field(), func, C.this.fields.data), "t" / C.Byte),
+            [dict(n=len(dd), fields=dict(value=dd), t=5) for dd in (b"", b"\x00", b"ab")])
+        shapes["prefixed-region/" + hn] = ("fixed", hn,
+            lambda field=field, func=func: C.Struct("fields" / C.RawCopy(C.Pass), "checksum" / C.Checksum(field(), func, C.this.fields.data), "t" / C.Byte),
+            [dict(fields=dict(value=None), t=5)])
     return shapes
 
 
@@ -258,8 +266,8 @@ def check_checksum(shape_name, tier, r=None, only=None):
             # edit a parsed message and rebuild it
             edited = d.parse(msg)
             fv = edited["fields"]["value"]
-            k0 = [k for k in fv if not k.startswith("_")][0]
-            if layout == "fixed" and isinstance(fv[k0], int) and not isinstance(fv[k0], bool):
+            k0 = [k for k in fv if not k.startswith("_")][0] if isinstance(fv, dict) else None
+            if layout == "fixed" and k0 is not None and isinstance(fv[k0], int) and not isinstance(fv[k0], bool):
                 fv[k0] = (fv[k0] + 1) % 200
                 del edited["fields"]["data"]
                 m3 = d.build(edited)
